@@ -244,7 +244,7 @@ def run_c04(ctx):
                 had = True
                 common.violation(ctx, replay_doc(r, rec, "crash state not recoverable: %r" % (rc,)),
                                  found_input=True, hint="oracle-")
-    names = ["pop", "delete", "rename", "refresh"] if ctx.quick() else [c[0] for c in proto.CASES]
+    names = ["pop", "delete", "rename", "refresh", "new-first", "commit"] if ctx.quick() else [c[0] for c in proto.CASES]
     n, failures = edit_prefix_crashes(ctx, stg, driver, upath, [case_by_name(x) for x in names])
     ctx.coverage["ref_edit_prefix_crashes"] = n
     ctx.coverage["evaluations"] += n
@@ -396,6 +396,7 @@ def run_c11(ctx):
                 samples.append(rec)
             if not agree:
                 disagreements.append(rec)
+            rec["model_predicts_both_succeed"] = kv["p1failed"] == "0" and kv["p2failed"] == "0"
             if p1.rc == 0 and p2.rc == 0 and not (e1 and e2):
                 lost.append(rec)
             if (p1.rc != 0 and e1) or (p2.rc != 0 and e2):
@@ -407,7 +408,10 @@ def run_c11(ctx):
         ctx.discharged += 1
     seen = False
     for rec in lost:
-        if "F9" in known_ids and "why" not in rec:
+        # F9 is the window the model of the CURRENT compare-and-swap has (the expected value is
+        # re-read inside the critical section): a lost update in a schedule where that
+        # compare-and-swap must detect the other process is a different violation
+        if "F9" in known_ids and "why" not in rec and rec["model_predicts_both_succeed"]:
             if not seen:
                 seen = True
                 ctx.known.append("F9: %s" % known_ids["F9"]["what"])
